@@ -906,7 +906,8 @@ fn assign_typing() -> usize {
         ("integer|bytes", Kind::integer().or_bytes(), vec![Value::Integer(2), Value::from("x")]),
         ("boolean", Kind::boolean(), vec![Value::Boolean(false)]),
     ];
-    let exprs = [".a + .b", ".a * .b", ".a / .b", ".a - .b", "to_int(.a) ?? to_float(.b)", "to_string(.a)", "(.a + .b) ?? .a"];
+    let exprs = [".a + .b", ".a * .b", ".a / .b", ".a - .b", "to_int(.a) ?? to_float(.b)", "to_string(.a)", "(.a + .b) ?? .a",
+                 "parse_url(.a)", "parse_json(.a)", "parse_key_value(.a)", "split(.a, \",\")", "parse_regex(.a, r'(?P<x>a)')", "slice(.a, 1)", "merge(.a, .b)", "parse_duration(.a, \"s\")"];
     let mut checked = 0;
     for e in exprs {
         for (n1, k1, v1s) in &kinds {
@@ -935,7 +936,7 @@ fn assign_typing() -> usize {
                         let Value::Object(o) = &target.value else { continue };
                         for (name, kind) in [("ok", &ok_kind), ("err", &err_kind)] {
                             let stored = o.get(name).cloned().unwrap_or(Value::Null);
-                            if kind.is_superset(&Kind::from(&stored)).is_err() {
+                            if !member(&stored, kind) {
                                 bad += 1;
                                 if bad <= 12 { fail("assign_typing", &case, &format!(".{name} inside its reported kind `{kind}`"), &stored.to_string()); }
                             }
@@ -1293,6 +1294,9 @@ fn string_laws() -> usize {
 }
 
 const WATCHDOG_PROGRAMS: &[&str] = &[
+    "b = decode_base64!(\"gA==\")\nstarts_with(b, b, case_sensitive: false)", "starts_with(decode_base64!(\"MjWwQw==\"), decode_base64!(\"MjWw\"), case_sensitive: false)",
+    "starts_with(decode_base64!(\"4oI=\"), decode_base64!(\"4oI=\"), case_sensitive: false)", "starts_with(\"25\u{b0}C\", \"25\u{b0}\", case_sensitive: false)", "starts_with(decode_base64!(\"/w==\"), \"a\", case_sensitive: false)",
+    "ends_with(decode_base64!(\"gA==\"), decode_base64!(\"gA==\"), case_sensitive: false)", "contains(decode_base64!(\"gA==\"), decode_base64!(\"gA==\"), case_sensitive: false)",
     "zip([])", "zip([[]])", "zip([[], [1]])", "zip([[1, 2], [3]])", "zip([1, 2], [])",
     "sieve(\"vector.dev/lowerUPPER\", r'[a-z]*')", "sieve(\"\", r'x?')", "sieve(\"abc\", r'')", "sieve(\"abc\", r'[a-z]')", "sieve(\"a-b\", r'[a-z]', replace_single: \"\", replace_repeated: \"\")",
     "replace(\"abc\", r'', \"x\")", "replace(\"abc\", r'x*', \"-\")", "replace(\"abc\", \"\", \"x\")", "replace(\"abc\", r'b', \"x\", count: -1)", "replace(\"abc\", r'b', \"x\", count: 0)",
